@@ -161,8 +161,8 @@ def self_test(ctx, traces, verdicts):
     cands = [t for t in traces if verdicts[t['id']][0] == 'ok'
              and any(e['e'] == 'ret' and e['kind'] == 'match' and e['before'] for e in t['ev'])
              and sum(1 for e in t['ev'] if e['e'] == 'read' and e['d']) >= 2]
-    if not cands:
-        raise tlc.TLCError('self-test: no suitable trace in the corpus')
+    if not common.selftest_possible(ctx, cands, 'a match after two data reads', broken=any(v[0] != 'ok' for v in verdicts.values())):
+        return {'skipped': 'no passing trace to corrupt'}
     t = cands[0]
     a = copy.deepcopy(t)
     a['id'] = 'corrupt-before'
